@@ -48,6 +48,6 @@ SPEC = dict(
                "the model's clock is exact. Trusted: net/http, context deadlines, net.Conn.SetDeadline.",
     trusted=COMMON_TRUST + ["net/http HTTP/2 client and httptest TLS server", "context deadline propagation", "net.Conn.SetDeadline",
                             "extract/upstream.go (deadline/ctx call-site facts)"],
-    assumptions=["steady (non-electing) endpoint: ErrorThreshold is effectively infinite in the harness",
+    assumptions=["steady endpoint: one candidate whose probe passes; the manager keeps its default error threshold (10), so a long run of faults holds an election that re-elects the same endpoint",
                  "fault timings are chosen clearly before (< 60 ms) or after (timeout + 250 ms) the 300 ms deadline"],
 )
